@@ -13,7 +13,7 @@ class Undecidable(Exception):
 
 SAFE_CALLS = {'int': int, 'str': str, 'len': len, 'sum': sum, 'divmod': divmod, 'tuple': tuple, 'reversed': reversed,
               'abs': abs, 'min': min, 'max': max, 'range': range, 'enumerate': enumerate, 'list': list, 'bool': bool,
-              'sorted': sorted, 'zip': zip}
+              'sorted': sorted, 'zip': zip, 'dict': dict, 'set': set, 'frozenset': frozenset}
 SAFE_METHODS = {'index', 'upper', 'lower', 'zfill', 'join', 'find', 'get', 'split', 'strip', 'rstrip', 'lstrip', 'partition', 'rsplit', 'replace'}
 
 
@@ -95,13 +95,24 @@ def ev(node, env, hooks=None):
         except (IndexError, KeyError, TypeError) as e:
             raise Undecidable('subscript fails: %s' % type(e).__name__)
     if isinstance(node, ast.GeneratorExp) or isinstance(node, ast.ListComp):
-        if len(node.generators) != 1 or not isinstance(node.generators[0].target, ast.Name):
-            raise Undecidable('comprehension shape')
         g = node.generators[0]
+        names = [g.target] if isinstance(g.target, ast.Name) else list(g.target.elts) if isinstance(g.target, ast.Tuple) else []
+        if len(node.generators) != 1 or not names or not all(isinstance(n, ast.Name) for n in names):
+            raise Undecidable('comprehension shape')
         out = []
         for x in E(g.iter):
             env2 = dict(env)
-            env2[g.target.id] = x
+            if isinstance(g.target, ast.Name):
+                env2[g.target.id] = x
+            else:
+                try:
+                    vals = tuple(x)
+                except TypeError:
+                    raise Undecidable('unpacking a non-sequence')
+                if len(vals) != len(names):
+                    raise Undecidable('unpacking %d values into %d names' % (len(vals), len(names)))
+                for n, v in zip(names, vals):
+                    env2[n.id] = v
             if all(ev(c, env2, hooks) for c in g.ifs):
                 out.append(ev(node.elt, env2, hooks))
         return out
@@ -127,6 +138,13 @@ def ev(node, env, hooks=None):
             if len(args) != 2 or not all(isinstance(a, str) for a in args):
                 raise Undecidable('re.%s arguments' % node.func.attr)
             return getattr(_re, node.func.attr)(*args)
+        if isinstance(node.func, ast.Attribute) and isinstance(node.func.value, ast.Name) and node.func.value.id == 'unicodedata' \
+                and node.func.attr == 'normalize' and 'unicodedata' not in env:
+            import unicodedata as _u
+            args = [E(a) for a in node.args]
+            if len(args) != 2 or args[0] not in ('NFC', 'NFD', 'NFKC', 'NFKD') or not isinstance(args[1], str):
+                raise Undecidable('unicodedata.normalize arguments')
+            return _u.normalize(*args)
         if isinstance(node.func, ast.Attribute) and node.func.attr in ('group', 'groups'):
             obj = E(node.func.value)
             import re as _re
